@@ -256,12 +256,12 @@ class C01(Prop):
 
   def generate(self, rng, tier):
     g = Gen(rng)
-    n = 350 if tier == 'quick' else 3000
+    n = 350 if tier == 'quick' else 6000
     for _ in range(n):
       yield g.history()
     ex = list(exhaustive_small())
     # (the framework keeps every dump of every case in memory: ~1 MB per long history)
-    ex = [ex[i] for i in range(0, len(ex), 37 if tier == 'quick' else 2)]
+    ex = [ex[i] for i in range(0, len(ex), 37 if tier == 'quick' else 1)]
     yield from ex
 
   def model_request(self, case):
